@@ -27,7 +27,8 @@ From Coq Require Import NArith ZArith List Bool Arith Lia.
 From Pq Require Import Base.Bytes Base.ListX Codec.Hybrid Thrift.Compact Thrift.Idl Thrift.IdlPinned Format.Phys Format.Meta Format.Page
   Format.ChunkLayout Format.File Format.Enc
   Proofs.ChunkLayoutProofs Proofs.HybridProofs Proofs.FormatCodecProofs Proofs.FormatPageProofs Proofs.FormatChunkProofs
-  Proofs.FormatMetaProofs Proofs.FormatIdlProofs Proofs.FormatFileProofs Proofs.FormatLayoutProofs.
+  Proofs.FormatMetaProofs Proofs.FormatIdlProofs Proofs.FormatFileProofs Proofs.FormatLayoutProofs Proofs.FormatLayoutProofs2
+  Impl.WPagesFmt Proofs.WPagesFmtProofs.
 Import ListNotations.
 Open Scope list_scope.
 
@@ -166,6 +167,26 @@ Theorem C02_every_table_has_a_layout : forall leaves rgs cb, table_fits leaves r
 Proof. exact every_table_has_a_layout. Qed.
 Print Assumptions C02_every_table_has_a_layout.
 
+(* ... and that canonical layout's pages are well-formed as soon as the values are representable *)
+Theorem C02_canonical_page_wf : forall optional t tlen cells,
+  cells_fit optional cells ->
+  Forall (fun v => value_ok t tlen v = true) (values_of cells) ->
+  lenN (hyb_enc 1 [BP (map level_of cells)]) < 2 ^ 32 ->
+  page_wf {| cd_type := t; cd_tlen := tlen; cd_maxdef := if optional then 1 else 0 |} (plain_page optional cells).
+Proof. exact plain_page_wf. Qed.
+Print Assumptions C02_canonical_page_wf.
+
+(* "for every table": a table that fits its leaves and whose canonical layout is representable is what the
+   specification decoder returns for the bytes the specification encoder writes for it *)
+Theorem C02_every_table_roundtrips :
+  forall (compress : Z -> bytes -> bytes) (decompress : Z -> N -> bytes -> option bytes),
+  (forall codec b, decompress codec (lenN b) (compress codec b) = Some b) ->
+  forall strict leaves rgs cb,
+  table_fits leaves rgs -> lfile_wf compress (layout_of leaves rgs cb) ->
+  dec_file decompress strict (enc_file compress (layout_of leaves rgs cb)) = ROk (map leaf_of_l leaves, rgs).
+Proof. exact every_table_roundtrips. Qed.
+Print Assumptions C02_every_table_roundtrips.
+
 (* decoding alone needs no strictness: a second dictionary page in a chunk, unequal row counts ... *)
 Theorem C02_spec_roundtrip_dec :
   forall (compress : Z -> bytes -> bytes) (decompress : Z -> N -> bytes -> option bytes),
@@ -194,6 +215,28 @@ Theorem C02_fp_write_chunk_valid : forall start encs (ps : list page) (m : cmd) 
 Proof. exact fp_write_chunk_valid. Qed.
 Print Assumptions C02_fp_write_chunk_valid.
 
+(* C02_fp_write_dec at page level: the layout write_column picks for a PLAIN column page (Impl/WPagesFmt.v:
+   one RLE run of definition levels when the page has no NULL, else one bit-packed run over the mask padded
+   with 8 - n mod 8 zeros; PLAIN values; 8 zero bytes after a v1 page) is a well-formed layout of the
+   specification and denotes exactly the page's cells - so (C02_spec_page_roundtrip) every specification
+   reader decodes the page to the input cells; for any number of rows, any NULL pattern, v1 and v2.
+   The model's payload bytes are compared with every real PLAIN page on each run (evidence:
+   writer_model_pages_not_byte_equal; information, not an obligation - DESIGN 4.2). *)
+Theorem C02_fp_write_plain_page_dec_partial : forall v2 optional t tlen cells,
+  cells_fit optional cells ->
+  page_cells {| cd_type := t; cd_tlen := tlen; cd_maxdef := if optional then 1 else 0 |} None (fp_plain_page v2 optional cells)
+  = Some cells.
+Proof. exact fp_plain_page_cells. Qed.
+Print Assumptions C02_fp_write_plain_page_dec_partial.
+
+Theorem C02_fp_write_plain_page_wf_partial : forall v2 optional t tlen cells,
+  cells_fit optional cells ->
+  Forall (fun v => value_ok t tlen v = true) (vals_of cells) ->
+  lenN (hyb_enc 1 (fp_def_runs cells)) < 2 ^ 32 -> cells <> [] ->
+  page_wf {| cd_type := t; cd_tlen := tlen; cd_maxdef := if optional then 1 else 0 |} (fp_plain_page v2 optional cells).
+Proof. exact fp_plain_page_wf. Qed.
+Print Assumptions C02_fp_write_plain_page_wf_partial.
+
 (* ---------------- non-vacuity -------------------------------------------------------------------- *)
 Example C02_nonvacuous :
   let d := {| p_kind := PDict; p_hdr := 14; p_comp := 30; p_uncomp := 50; p_nvals := 5; p_enc := 0 |}%Z in
@@ -207,8 +250,8 @@ Proof. repeat split; vm_compute; reflexivity. Qed.
    v1; required BYTE_ARRAY with a dictionary page, RLE + bit-packed indices, v2), identity "compression":
    the decoder returns the denoted table and the validator accepts *)
 Definition ex_file : lfile :=
-  {| l_leaves := [ {| ll_name := [97]; ll_type := INT32; ll_tlen := 0; ll_optional := true; ll_conv := None; ll_logical := None |};
-                   {| ll_name := [115]; ll_type := BYTE_ARRAY; ll_tlen := 0; ll_optional := false; ll_conv := Some 0%Z; ll_logical := None |} ];
+  {| l_leaves := [ {| ll_name := [97]; ll_type := INT32; ll_tlen := 0; ll_optional := true; ll_conv := None; ll_logical := None; ll_scale := None; ll_prec := None |};
+                   {| ll_name := [115]; ll_type := BYTE_ARRAY; ll_tlen := 0; ll_optional := false; ll_conv := Some 0%Z; ll_logical := None; ll_scale := None; ll_prec := None |} ];
      l_rgs := [ [ {| lc_codec := 0%Z; lc_stats := true;
                      lc_items := [ LData {| lp_v2 := false; lp_nvals := 3; lp_def := [RLE 1 1; BP [0; 1]];
                                             lp_store := SPlain [VNum 7; VNum 4294967295]; lp_iscomp := None; lp_trail := [] |} ] |};
